@@ -51,10 +51,15 @@ func (c split) Recv() ([]byte, error) {
 			continue // incomplete line
 		}
 		line := buf.Bytes()
-		if n := len(line) - 1; n >= 0 {
-			return line[:n], err
+		if err != nil {
+			// The stream ended before a split byte was seen. Report whatever was
+			// read intact; only a complete record has a terminator to remove.
+			if len(line) == 0 {
+				return nil, err
+			}
+			return line, err
 		}
-		return nil, err
+		return line[:len(line)-1], nil
 	}
 }
 
